@@ -203,7 +203,7 @@ OpName == {"add", "sub", "mul", "div", "rem"}
 NumErr(r) == IF r.ok THEN r ELSE r   \* (identity; keeps call sites readable)
 FromNum(kind, r) ==
   IF r.ok THEN R([t |-> kind, n |-> r.v])
-  ELSE E({r.c})
+  ELSE E(IF r.c = "rem0" THEN {"rem0", "div0"} ELSE {r.c})         \* a zero divisor of % may be reported as either
 
 \* UTF-8 length of a code point sequence
 Utf8Len1(c) == IF c < 128 THEN 1 ELSE IF c < 2048 THEN 2 ELSE IF c < 65536 THEN 3 ELSE 4
